@@ -893,7 +893,7 @@ class Flow(object):
         ax = []
         splits = []
         while todo:
-            a = min(todo)           # deterministic order
+            a = min(todo, key=lambda z: (z is None, str(z)))   # deterministic
             todo.discard(a)
             if a in seen:
                 continue
